@@ -329,6 +329,90 @@ fn range_unbounded_unbounded() {
     range_case(2, 2);
 }
 
+// ---- C08-Ob4: a range whose start bound sits at the END of the first of two leaves (the last key of leaf 1, or an
+//      absent key in the gap between the leaves): the skip of an excluded start has to cross the leaf boundary
+fn range_two_leaves_case(sk: u8, gap: bool, symbolic: bool) {
+    let (a, c): ([[u8; 2]; 2], [[u8; 2]; 2]) = if symbolic { (kani::any(), kani::any()) } else { ([[10, 0], [20, 5]], [[30, 0], [40, 0]]) };
+    let s: [u8; 2] = if !gap { a[1] } else if symbolic { kani::any() } else { [20, 9] };
+    kani::assume(a[0] < a[1] && a[1] < c[0] && c[0] < c[1]);
+    if gap {
+        kani::assume(a[1] < s && s < c[0]);
+    }
+    tree_two_leaves(&a, &c);
+    let b = mk_bucket(3, false);
+    let e = [0u8; 2];
+    let mut r = b.range(RB { s: bound_of(sk, &s), e: bound_of(2, &e) });
+    let d0 = r.next();
+    let d1 = r.next();
+    let d2 = r.next();
+    let d3 = r.next();
+    let got = [key_of(&d0), key_of(&d1), key_of(&d2), key_of(&d3)];
+    let exp: [Option<[u8; 2]>; 4] = if sk == 0 && !gap {
+        [Some(a[1]), Some(c[0]), Some(c[1]), None]
+    } else {
+        [Some(c[0]), Some(c[1]), None, None]
+    };
+    let mut j = 0;
+    while j < 4 {
+        assert!(got[j] == exp[j], "JV-C08-LEAF-END: a range starting at the end of a leaf yields exactly the later entries, across the leaf boundary");
+        j += 1;
+    }
+    std::mem::forget(d0);
+    std::mem::forget(d1);
+    std::mem::forget(d2);
+    std::mem::forget(d3);
+    std::mem::forget(r);
+    std::mem::forget(b);
+}
+// @ob props=C08 tier=quick cap=600 mem=6 fns=Range::next,Cursor::seek,search,Cursor::next,Cursor::current,PageNode::index,PageNode::index_page bound="branch page over two leaf pages with 2 keys each, concrete keys (one execution, all checks on); start = Excluded(last key of the first leaf), end unbounded; four calls of next()" unwind=5
+#[kani::proof]
+#[kani::unwind(5)]
+fn range_two_leaves_excluded_last_of_leaf() {
+    range_two_leaves_case(1, false, false);
+}
+// @ob props=C08 tier=thorough cap=3000 mem=12 fns=Range::next,Cursor::seek,search,Cursor::next,Cursor::current,PageNode::index,PageNode::index_page bound="same tree with all 4 keys symbolic (ascending 2-byte keys); start = Excluded(last key of the first leaf), end unbounded; four calls of next()" unwind=5
+#[kani::proof]
+#[kani::unwind(5)]
+fn range_two_leaves_excluded_last_of_leaf_sym() {
+    range_two_leaves_case(1, false, true);
+}
+// @ob props=C08 tier=quick cap=600 mem=6 fns=Range::next,Cursor::seek,search,Cursor::next,Cursor::current,PageNode::index,PageNode::index_page bound="branch page over two leaf pages with 2 keys each, concrete keys (one execution, all checks on); start = Excluded(absent key in the gap between the leaves), end unbounded; four calls of next()" unwind=5
+#[kani::proof]
+#[kani::unwind(5)]
+fn range_two_leaves_excluded_gap() {
+    range_two_leaves_case(1, true, false);
+}
+// @ob props=C08 tier=thorough cap=3000 mem=12 fns=Range::next,Cursor::seek,search,Cursor::next,Cursor::current,PageNode::index,PageNode::index_page bound="same tree with all 4 keys symbolic (ascending 2-byte keys) and the absent start key symbolic; start = Excluded(absent key in the gap between the leaves), end unbounded; four calls of next()" unwind=5
+#[kani::proof]
+#[kani::unwind(5)]
+fn range_two_leaves_excluded_gap_sym() {
+    range_two_leaves_case(1, true, true);
+}
+// @ob props=C08 tier=quick cap=600 mem=6 fns=Range::next,Cursor::seek,search,Cursor::next,Cursor::current,PageNode::index,PageNode::index_page bound="branch page over two leaf pages with 2 keys each, concrete keys (one execution, all checks on); start = Included(last key of the first leaf), end unbounded; four calls of next()" unwind=5
+#[kani::proof]
+#[kani::unwind(5)]
+fn range_two_leaves_included_last_of_leaf() {
+    range_two_leaves_case(0, false, false);
+}
+// @ob props=C08 tier=thorough cap=3000 mem=12 fns=Range::next,Cursor::seek,search,Cursor::next,Cursor::current,PageNode::index,PageNode::index_page bound="same tree with all 4 keys symbolic (ascending 2-byte keys); start = Included(last key of the first leaf), end unbounded; four calls of next()" unwind=5
+#[kani::proof]
+#[kani::unwind(5)]
+fn range_two_leaves_included_last_of_leaf_sym() {
+    range_two_leaves_case(0, false, true);
+}
+// @ob props=C08 tier=quick cap=600 mem=6 fns=Range::next,Cursor::seek,search,Cursor::next,Cursor::current,PageNode::index,PageNode::index_page bound="branch page over two leaf pages with 2 keys each, concrete keys (one execution, all checks on); start = Included(absent key in the gap between the leaves), end unbounded; four calls of next()" unwind=5
+#[kani::proof]
+#[kani::unwind(5)]
+fn range_two_leaves_included_gap() {
+    range_two_leaves_case(0, true, false);
+}
+// @ob props=C08 tier=thorough cap=3000 mem=12 fns=Range::next,Cursor::seek,search,Cursor::next,Cursor::current,PageNode::index,PageNode::index_page bound="same tree with all 4 keys symbolic (ascending 2-byte keys) and the absent start key symbolic; start = Included(absent key in the gap between the leaves), end unbounded; four calls of next()" unwind=5
+#[kani::proof]
+#[kani::unwind(5)]
+fn range_two_leaves_included_gap_sym() {
+    range_two_leaves_case(0, true, true);
+}
+
 // ---- generic hand-layer for the pinned page format (concrete shapes, bytes may be symbolic)
 pub(crate) struct Ent<'a> {
     pub t: u8,
